@@ -3297,6 +3297,15 @@ func (in *Interp) globalConst(v *types.Var) (Value, bool) {
 										val, found = mv, true
 									}
 								}
+								// a record of constants (var sliceForm = listForm{doc: "…", param: "list"}): a struct or a slice
+								// literal all of whose leaves are constant expressions; a field that is written anywhere makes it a
+								// variable again (fieldWritten below)
+								switch p.TypesInfo.TypeOf(cl).Underlying().(type) {
+								case *types.Struct, *types.Slice, *types.Array:
+									if constLeaves(p.TypesInfo, cl) {
+										val, found = in.eval(&Frame{vars: map[types.Object]*Value{}, pkg: p}, cl), true
+									}
+								}
 							}
 							if tv, ok := p.TypesInfo.Types[x.Values[i]]; ok && tv.Value != nil {
 								switch tv.Value.Kind() {
@@ -3321,6 +3330,21 @@ func (in *Interp) globalConst(v *types.Var) (Value, bool) {
 							if id, ok := ast.Unparen(ix.X).(*ast.Ident); ok && p.TypesInfo.Uses[id] == v {
 								assigned = true
 							}
+						}
+						// a store into a field of the record
+						for e := l; ; {
+							sel, ok := ast.Unparen(e).(*ast.SelectorExpr)
+							if !ok {
+								if ix, isIx := ast.Unparen(e).(*ast.IndexExpr); isIx {
+									e = ix.X
+									continue
+								}
+								if id, isID := ast.Unparen(e).(*ast.Ident); isID && p.TypesInfo.Uses[id] == v && e != l {
+									assigned = true
+								}
+								break
+							}
+							e = sel.X
 						}
 					}
 				case *ast.CallExpr:
@@ -3478,4 +3502,25 @@ func (in *Interp) memoAnswer(sym string) int {
 type typeStringCall struct {
 	str VStr
 	pos token.Pos
+}
+
+
+// constLeaves: a composite literal whose elements are constant expressions or composite literals of the same kind.
+func constLeaves(info *types.Info, cl *ast.CompositeLit) bool {
+	for _, el := range cl.Elts {
+		e := el
+		if kv, ok := el.(*ast.KeyValueExpr); ok {
+			e = kv.Value
+		}
+		if inner, ok := ast.Unparen(e).(*ast.CompositeLit); ok {
+			if !constLeaves(info, inner) {
+				return false
+			}
+			continue
+		}
+		if tv, ok := info.Types[e]; !ok || tv.Value == nil {
+			return false
+		}
+	}
+	return true
 }
